@@ -289,6 +289,39 @@ class Check:
         if self.tier == "thorough":
             self.coqchk()
 
+    def lock_facts_obligation(self):
+        """Regenerate, from /repo's service.go, the table of calls that run handlers or may block on a peer, with the state of the service
+        mutex at each call site, and let Coq evaluate lock_facts_ok on it (Model/LockFacts.v)."""
+        import re
+        ok, out, ga = build_go("goaccess", overlay=False)
+        if not ok:
+            self.broken.append("translator goaccess does not build: " + out[-400:])
+            return
+        gen = os.path.join(COQ, "gen")
+        os.makedirs(gen, exist_ok=True)
+        rc, txt = sh([ga, REPO], timeout=120)
+        if rc != 0:
+            self.broken.append("translator goaccess failed on /repo's sources: " + txt[-400:])
+            return
+        mod = "GenLock_%s" % self.pid
+        open(os.path.join(gen, mod + ".v"), "w").write(txt.replace("Definition table ", "Definition table_unused_here "))
+        open(os.path.join(gen, mod + "Check.v"), "w").write("From VL Require Import Bytes Access LockFacts %s.\n"
+                                                            "Definition verdict := Eval vm_compute in lock_facts_ok callouts.\nPrint verdict.\n"
+                                                            "Definition held := Eval vm_compute in filter a_locked callouts.\nPrint held.\n" % mod)
+        rc, o = sh("cd %s && timeout 300 coqc -Q . VL gen/%s.v && timeout 300 coqc -Q . VL gen/%sCheck.v" % (COQ, mod, mod), timeout=700)
+        good = rc == 0 and re.search(r"verdict\s*=\s*true", o) is not None
+        rct, plain = sh([ga, REPO, "text"], timeout=60)
+        held = [l for l in plain.split("\n") if l.startswith("callout") and "locked=true" in l]
+        self.extra["callouts"] = [l for l in plain.split("\n") if l.startswith("callout")][:60]
+        self.obligations.append(("no handler dispatch, reply or connection I/O is called with the service mutex held (calls regenerated from /repo's service.go, "
+                                 "lock_facts_ok by vm_compute): connections share nothing but the registry", good, "" if good else ("; ".join(held) or o[-500:])))
+        for ext in ("vo", "glob", "vok", "vos"):
+            for nme in (mod, mod + "Check"):
+                try:
+                    os.remove(os.path.join(gen, "%s.%s" % (nme, ext)))
+                except OSError:
+                    pass
+
     def coqchk(self):
         rc, out = sh("cd %s && timeout 3000 coqchk -silent -o -Q . VL VL.Props.%s 2>&1" % (COQ, self.pid), timeout=3100)
         ok = rc == 0
@@ -374,6 +407,9 @@ class Check:
             json.dump(dict(property=self.pid, seed=self.seed, tier=self.tier, failing=fl, more=fresh[1:6],
                            total_failing=len(fresh), replay=replay_cmd.format(path=path)), open(path, "w"), indent=1, default=str)
             lines.append("VIOLATION property=%s replay=%s" % (self.pid, path))
+            # the reason, so that a log of this run explains itself even when the replay file is out of reach
+            lines.append("  what: [%s] %s" % (fl.get("kind", "?"), str(fl.get("what", ""))[:600].replace("\n", " ")))
+            lines.append("  case: %s" % str(fl.get("case", ""))[:400].replace("\n", " "))
             rc = 1
         elif self.broken:
             h = hashlib.sha1("\n".join(self.broken).encode()).hexdigest()[:12]
@@ -382,6 +418,7 @@ class Check:
                            note="no concrete failing input was found on the implementation; the property is no longer shown to hold"),
                       open(path, "w"), indent=1)
             lines.append("VIOLATION property=%s replay=%s no-failing-input-found" % (self.pid, path))
+            lines.append("  no longer checks: %s" % self.broken[0][:800].replace("\n", " "))
             rc = 1
         n_ob = len(self.obligations)
         n_ok = sum(1 for o in self.obligations if o[1])
